@@ -36,9 +36,25 @@ fn bounded_host(t: &mut Tape) -> (String, String, String) {
   head.push_str("class Feet(val v: int) : Conv<Meters> {\n  function of(v: int): Feet = Feet.init(v)\n\n  method conv(): Meters = Meters.init(this.v * 3)\n}\n\n");
   head.push_str("class Meters(val v: int) : Conv<Feet> {\n  function of(v: int): Meters = Meters.init(v)\n\n  method conv(): Feet = Feet.init(this.v + 1)\n}\n\n");
   head.push_str(&format!("class Rel{tparams}(val a: A, val b: B) {{\n  method left(): A = this.a\n\n  method converted(): B = this.a.conv()\n}}\n\n"));
-  head.push_str(&format!("class Main {{\n  function {tparams} mk(a: A, b: B): B = a.conv()\n\n  function main(): unit = {{\n"));
+  head.push_str(&format!("class Main {{\n  function {tparams} mk(a: A, b: B): B = a.conv()\n\n  function <T> id(x: T): T = x\n\n  function <T> app(x: T, f: (T) -> T): T = f(x)\n\n  function main(): unit = {{\n"));
   let tail = "  }\n}\n";
   let (ax, by) = (format!("{x}.of({})", 1 + t.choose(9)), format!("{y}.of({})", 1 + t.choose(9)));
+  // a violated bound (B instantiated with the class of `x`, which does not convert to itself) reached
+  // through implicit instantiation inside an argument of another implicitly instantiated call: rejected
+  // in every spelling
+  if t.bool(1, 3) {
+    let bad = format!("{x}.of({})", 1 + t.choose(9));
+    let inner = format!("Main.mk({ax}, {bad})", ax = format!("{x}.of({})", 1 + t.choose(9)));
+    let bad_targs = format!("{}, {}", if order[0] == "A" { x } else { x }, x);
+    let (b, a, what) = match t.choose(4) {
+      0 => (format!("    let m = Main.id({inner});\n"), format!("    let m = Main.id<{x}>({inner});\n"), "explicit-type-arguments(outer call, bound violated inside)"),
+      1 => (format!("    let m = Main.id({inner});\n"), format!("    let m = Main.id({});\n", inner.replacen("Main.mk(", &format!("Main.mk<{bad_targs}>("), 1)), "explicit-type-arguments(inner call, bound violated)"),
+      2 => (format!("    let m = Main.id({inner});\n"), format!("    let m = Main.id({{ {inner} }});\n"), "wrap-in-block(bound violated inside)"),
+      _ => (format!("    let m = Main.app({bad}, (v: {x}) -> {inner});\n"), format!("    let m = Main.app<{x}>({bad}, (v: {x}) -> {inner});\n"), "explicit-type-arguments(outer call, bound violated in lambda body)"),
+    };
+    let use_m = "    let _ = Process.println(Str.fromInt(m.v));\n";
+    return (format!("{head}{b}{use_m}{tail}"), format!("{head}{a}{use_m}{tail}"), format!("{what}/{shape}/rejected-host"));
+  }
   let (before, after, what) = match t.choose(4) {
     0 => (
       format!("    let r = Rel.init({ax}, {by});\n    let _ = Process.println(Str.fromInt(r.converted().v + r.left().v));\n"),
